@@ -1082,6 +1082,53 @@ def check_pubkey_spend(chk, F):
                        where="src/interpreter/mod.rs", detail=bad[:10])
 
 
+# ---- R13.7 the interpreter's copy of the script ---------------------------------------------------------------------------
+
+def check_to_no_checks(chk, F):
+    from ..builtins import deref
+    R = "R13.7"
+    chk.rule(R, "the interpreter executes a copy of the script whose keys are wrapped, not changed: to_no_checks_ms translates "
+                "every full key K to BitcoinKey::Fullkey(K), every x-only key to BitcoinKey::XOnlyPublicKey(K), and every hash to "
+                "itself (through Miniscript::translate_pk_ctx, whose structure preservation C20 decides)")
+    imps = [i for i in F.impls if (i["trait"] or "").endswith("ToNoChecks")]
+    if len(imps) != 2:
+        chk.fail(R, "anchor", "expected two impls of ToNoChecks, found %d" % len(imps), kind="unanalysable")
+        return
+    tp = F.fn("translate_pk_ctx", file="miniscript/mod.rs")
+    n = 0
+    for imp in imps:
+        p = imp["items"][0]["path"]
+        chk.saw(p)
+        xonly = "XOnly" in (imp.get("self_ty") or "")
+        seen = {}
+
+        def hook(m_, a, c):
+            t = a[1]
+            out = {}
+            for nm, arg in (("pk", "K"), ("sha256", "H1"), ("hash256", "H2"), ("ripemd160", "H3"), ("hash160", "H4")):
+                out[nm] = m_.call_callee({"def": "Translator::" + nm, "name": nm, "trait": "Translator", "targs": []}, [t, arg])
+            seen.update(out)
+            return ok(Term("translated"))
+        m = Machine(F, strict=True, hooks={tp: hook})
+        try:
+            m.call_callee({"def": p, "resolved": p, "name": "to_no_checks_ms", "targs": ["CTX"]}, [Term("ms")])
+        except (Unsupported, Panic) as e:
+            chk.fail(R, "unanalysable:" + p[-60:], "unanalysable: %s" % e, kind="unanalysable")
+            continue
+        n += 1
+        k = seen.get("pk")
+        kk = deref(k.fields["0"]) if isinstance(k, Adt) and k.variant == "Ok" else None
+        want_variant = "XOnlyPublicKey" if xonly else "Fullkey"
+        good = isinstance(kk, Adt) and kk.variant == want_variant and deref(kk.fields["0"]) == "K"
+        chk.obligation(R, good, ("x-only" if xonly else "full") + "|pk", "a %s key K becomes %r, expected BitcoinKey::%s(K)"
+                       % ("x-only" if xonly else "full", k, want_variant), F.fns[p]["span"])
+        for nm, arg in (("sha256", "H1"), ("hash256", "H2"), ("ripemd160", "H3"), ("hash160", "H4")):
+            r = seen.get(nm)
+            good = isinstance(r, Adt) and r.variant == "Ok" and deref(r.fields["0"]) == arg
+            chk.obligation(R, good, ("x-only" if xonly else "full") + "|" + nm, "hash %s becomes %r" % (arg, r), F.fns[p]["span"])
+    chk.floor(R, "conversions", n, 2)
+
+
 def run(chk):
     F = chk.facts()
     chk.explanation = __doc__
@@ -1096,3 +1143,5 @@ def run(chk):
         chk.guard("R13.5", "sighash", check_sighash_partition, chk, F)
     if not ONLY or "p" in ONLY:
         chk.guard("R13.1p", "pubkey", check_pubkey_spend, chk, F)
+    if not ONLY or "7" in ONLY:
+        chk.guard("R13.7", "to-no-checks", check_to_no_checks, chk, F)
